@@ -429,11 +429,22 @@ def rule_leader_keeps_leading(ctx: Ctx) -> None:
         rearm = [c for c in calls_in(hh.node) if path_of(c.func) == "self._send_heartbeat"]
         ok = len(rearm) == 1 and ff.holds_at(node_of(ff.cfg, rearm[0]), Fact("truthy", "metadata.get('self_heartbeat')")) and ff.holds_at(node_of(ff.cfg, rearm[0]), Fact("truthy", "self._is_leader"))
         ctx.ob("C12-12", "G2", hh, rearm[0] if rearm else None, ok, f"{cname}: while it leads, the node's own tick sends the next round of heartbeats and re-arms itself")
+        # the same tick drives replication: whatever submit() put into the log is sent out (and re-sent until committed)
+        ru = prog.func(rel, f"{cname}._replicate_uncommitted")
+        lp = [st for st in ru.node.body if isinstance(st, ast.For)]
+        okr = len(lp) == 1 and unparse(lp[0].iter).replace(" ", "") == "range(self._log.commit_index+1,self._log.last_index+1)" and any(path_of(k.func) == "self._replicate_slot" and [path_of(a) for a in k.args] == [path_of(lp[0].target)] for k in calls_in(lp[0]))
+        tick = [k for k in calls_in(hh.node) if path_of(k.func) == "self._replicate_uncommitted"]
+        okt = len(tick) == 1 and ff.holds_at(node_of(ff.cfg, tick[0]), Fact("truthy", "metadata.get('self_heartbeat')")) and ff.holds_at(node_of(ff.cfg, tick[0]), Fact("truthy", "self._is_leader"))
+        ctx.ob("C12-12", "G2", hh, tick[0] if tick else None, okr and okt, f"{cname}: the leader's tick (re-)sends the Accepts of every assigned slot above the commit index — a command given to submit() is decided without the caller touching private methods")
+        ha = prog.func(rel, f"{cname}._handle_accepted")
+        txt = unparse(ha.node).replace(" ", "")
+        okc = "self._slot_acks[slot]=len(ackers)" in txt and "ackers=self._slot_ackers.setdefault(slot,set())" in txt and not any(isinstance(st, ast.AugAssign) and "self._slot_acks" in unparse(st.target) for st in walk_stmts(ha.node.body))
+        ctx.ob("C12-12", "G2", ha, "acks counted per acceptor", okc, f"{cname}: a slot's quorum counts distinct acceptors (Accepts are re-sent, so one acceptor may answer twice)")
         sh = prog.func(rel, f"{cname}._send_heartbeat")
         tick = [c for c in calls_in(sh.node) if path_of(c.func) == "Event" and any(k.arg == "target" and path_of(k.value) == "self" for k in c.keywords)]
         ok = len(tick) == 1 and "'self_heartbeat': True" in unparse(tick[0])
         ctx.ob("C12-12", "G8", sh, tick[0] if tick else None, ok, f"{cname}._send_heartbeat marks its self-scheduled tick with self_heartbeat=True (the flag the handler tests)")
-    ctx.floor("C12-12", 6)
+    ctx.floor("C12-12", 10)
 
 
 def rule_slots_only_by_leader(ctx: Ctx) -> None:
@@ -480,8 +491,10 @@ def run(ctx: Ctx) -> None:
 
 
 MUTANTS = [
+    ("multipaxos-tick-does-not-replicate", MP, "            events = self._send_heartbeat()\n            events.extend(self._replicate_uncommitted())\n            return events", "            return self._send_heartbeat()", "C12-12"),
+    ("flexible-acks-counted-per-message", FP, "        self._slot_acks[slot] = len(ackers)", "        self._slot_acks[slot] = self._slot_acks.get(slot, 0) + 1", "C12-12"),
     ("forward-accepted-by-leader-hint", MP, "        if self._is_leader and command is not None:", "        if self._leader == self.name and command is not None:", "C12-13"),
-    ("multipaxos-own-tick-demotes", MP, "        if metadata.get(\"self_heartbeat\"):\n            if not self._is_leader:\n                return None\n            return self._send_heartbeat()\n\n        ballot = Ballot(", "        ballot = Ballot(", "C12-12"),
+    ("multipaxos-own-tick-demotes", MP, "        if metadata.get(\"self_heartbeat\"):\n            if not self._is_leader:\n                return None\n            # The tick also drives replication", "        if metadata.get(\"self_heartbeat\") and not self._is_leader:\n            if not self._is_leader:\n                return None\n            # The tick also drives replication", "C12-12"),
     ("self-count-without-self-accept", PAX, "            self._accepted_value = chosen_value\n            self._phase2_responses[ballot_number] = 1  # count self", "            self._accepted_value = chosen_value\n        self._phase2_responses[ballot_number] = 1  # count self", "C12-6"),
     ("accept-does-not-raise-promise", PAX, "        # Accept\n        self._promised_ballot = ballot\n        self._accepted_ballot = ballot", "        # Accept\n        self._accepted_ballot = ballot", "C12-3"),
     ("promise-ballot-halves-mixed", PAX, "            accepted_ballot = (metadata[\"accepted_ballot_number\"], metadata[\"accepted_ballot_node\"])", "            accepted_ballot = (metadata[\"accepted_ballot_number\"], metadata[\"ballot_node\"])", "C12-5"),
